@@ -72,3 +72,13 @@ Example payload_dependent_filter_refuted :
   map (fun h => snd (fst (dispatch_nullskip (fun _ _ => []) 0 (h, []) (mkSt [mkReg 0 0 0 0 9] []) []))) [243; 247; 251; 255; 240] =
     [[]; []; []; []; [EPort (mkReg 0 0 0 0 9) 0]].
 Proof. vm_compute. auto. Qed.
+
+(* ---- failing reads: the code ends the loop; swallowing the exception with a stale packet variable (seeded C07-k)
+   dispatches the previous packet once more per failing read *)
+Definition reads_fault : list read := [RPacket 44; RRaise; RRaise; RPacket 44].
+Example read_fault_ends_loop_after_exactly_once :
+  obs_of (run_stream (fun _ _ => []) 0 reads_fault (mkSt [ra] []) []) = [0; 1; 0].
+Proof. vm_compute. reflexivity. Qed.
+Example stale_packet_dispatched_again :
+  obs_of (run_stream_stale (fun _ _ => []) 0 None reads_fault (mkSt [ra] []) []) = [1; 1; 0; 1; 0; 1; 0; 1; 1].
+Proof. vm_compute. reflexivity. Qed.
